@@ -29,6 +29,18 @@ Theorem C20_exclude_prune_safe : forall ipats pats,
   sel_sound (sel_exclude ipats pats).
 Proof. exact exclude_prune_safe. Qed.
 
+(* exclude filters in general (negated patterns allowed): restore writes exactly the selected entries whose
+   ancestor directories are all selected -- the documented gitignore-like rule "once a directory is excluded,
+   it is not possible to include files inside the directory" *)
+Theorem C20_exclude_written_exact : forall ipats pats top,
+  w_written (walk_root (sel_exclude ipats pats) top) = spec_written_excl (sel_exclude ipats pats) top.
+Proof. exact exclude_written_exact. Qed.
+
+Theorem C20_final_state_spec_excl : forall ipats pats delete top extras,
+  final_state (sel_exclude ipats pats) delete top extras =
+  spec_final_w (spec_written_excl (sel_exclude ipats pats) top) (sel_exclude ipats pats) delete top extras.
+Proof. exact final_state_spec_excl. Qed.
+
 (* --delete removes a pre-existing entry iff leaveDir runs for its directory, its name is not a child of the
    snapshot directory and the filter selects it *)
 Theorem C20_delete_exact : forall sel leave e, deleted sel leave e = true <->
@@ -44,5 +56,7 @@ Print Assumptions C20_written_exact.
 Print Assumptions C20_include_prune_safe.
 Print Assumptions C20_include_is_disjunction.
 Print Assumptions C20_exclude_prune_safe.
+Print Assumptions C20_exclude_written_exact.
+Print Assumptions C20_final_state_spec_excl.
 Print Assumptions C20_delete_exact.
 Print Assumptions C20_final_state_spec.
